@@ -168,28 +168,32 @@ def r2(ctx):
 
 
 def r4(ctx):
-    """composition: the argument and every extra argument are evaluated through get_column_expr_value"""
-    h = ctx.anchor_hir(GFUNV)
-    cs = calls_to(h, GET_VALUE)
-    ok = len(cs) == 1
-    if ok:
-        locs = Locals(h)
-        a1 = render(locs.chase(peel(cs[0]["args"][1])))
-        a2 = render(cs[0]["args"][2])
-        ok = "get_column_expr_value" in a1 and "left_expr" in a1 and a2 == "function_args"
-        pushes = [c for c in walk_exprs(h) if c["k"] == "MCall" and c["m"] == "push" and render(c["recv"]) == "function_args"]
-        ok = ok and len(pushes) == 1
-        if pushes:
-            pv = render(locs.chase(peel(pushes[0]["args"][0])))
-            g = guards_of(h, pushes[0])
-            ok = ok and "get_column_expr_value" in render(Locals(h).chase(peel(pushes[0]["args"][0]["recv"] if pushes[0]["args"][0]["k"] == "MCall" else pushes[0]["args"][0]))) \
-                and any(t[0] == "loop" for t in g)
-        f0 = render(cs[0]["args"][0])
-        ok = ok and "column_expr.function" in f0
+    """composition: the argument and every extra argument are evaluated through the expression evaluator, in order, and
+    their values are what the function is applied to; the result is stored under the call's text: get_function_value
+    evaluated (rules/gcev.py) on F(ARG), F(ARG, A1, A2)"""
+    import gcev
+    import interp
+    run = gcev.FunRun(ctx)
+    ok, why = True, ""
+    n = 0
+    for extra in ((), ("A1", "A2")):
+        try:
+            got, ev, memo = run.run(extra=extra)
+        except interp.Undecided as e:
+            ok, why = False, "cannot evaluate get_function_value: %s" % e
+            break
+        n += 1
+        evals = [e[1] for e in ev if e[0] == "eval"]
+        gv = [e for e in ev if e[0] == "get_value"]
+        good = evals == ["ARG"] + list(extra) and len(gv) == 1 and gv[0][1:] == ("Function::Concat", "val:ARG", ["val:%s" % t for t in extra]) and \
+            isinstance(got, dict) and got.get("__variant") == "result" and memo.get("f(<ARG>)") == "result"
+        if not good:
+            ok, why = False, "for F(ARG%s): evaluated %s, dispatched %s, returned %s, stored %s" % ("".join(", " + t for t in extra), evals, [g[1:] for g in gv], got, dict(memo))
+            break
     ctx.obligation(ok)
-    ctx.covered("argument evaluation of get_function_value (first argument, extra arguments, dispatch)", 3, distinct_keys=["first", "extra", "dispatch"])
+    ctx.covered("argument evaluation of get_function_value (first argument, extra arguments, dispatch, result stored)", max(n, 1), distinct_keys=["first", "extra", "dispatch"], exhaustive=True)
     if not ok:
-        ctx.violation("composition", ctx.where(GFUNV), "a function's argument and every extra argument must be evaluated as expressions (get_column_expr_value) before dispatch, so that F(G(x)) = F applied to the value of G(x)")
+        ctx.violation("composition", ctx.where(GFUNV), "a function's argument and every extra argument must be evaluated as expressions (get_column_expr_value) before dispatch, so that F(G(x)) = F applied to the value of G(x): %s" % why)
 
 
 RULES = [
